@@ -215,7 +215,7 @@ def body(ctx, case):
 
 def parts(ctx):
     return [
-        Part("invariants", body, strategy=fit_case(False), n={"quick": 320, "thorough": 8000}, budget_s={"quick": 200, "thorough": 2400}, case_timeout_s=120),
+        Part("invariants", body, strategy=fit_case(False), n={"quick": 1600, "thorough": 16000}, budget_s={"quick": 200, "thorough": 2400}, case_timeout_s=120),
         Part("recovery", body, strategy=fit_case(True), n={"quick": 32, "thorough": 640}, budget_s={"quick": 240, "thorough": 3000}, case_timeout_s=240),
     ]
 
